@@ -14,4 +14,5 @@ sh tools/mkcoqproject.sh
 (cd coq && coq_makefile -f _CoqProject -o Makefile >/dev/null && timeout 3000 make -j16 >/dev/null 2>&1 || (make 2>&1 | tail -30; exit 1))
 sh coq/extract/build.sh
 (cd harness && cargo build --offline --target-dir target 2>&1 | tail -2)
+cargo build --offline --manifest-path /repo/Cargo.toml --target-dir harness/target-repo 2>&1 | tail -1
 echo setup done
